@@ -730,15 +730,17 @@ package graph
 // node k in the queue; when an entry is taken out at position r - from whichever end - the entries behind it move up by one (r is obtained
 // from the code's own slice operation, so the bookkeeping does not depend on the queue discipline); wit[k] / wj[k] name the Dependents entry
 // (of node wit[k], at index wj[k]) through which the current depth of k was assigned.
-// What is proved is the local characterisation of the result (partial correctness - on a cyclic graph the loop need not end, §6.3):
+// What is proved is the local characterisation of the result (partial correctness; termination is not claimed - the cap below is what ends the loop on cyclic graphs):
 //   a node has depth 0 exactly when it has no dependencies; every other node has depth -1 (never reached) or >= 1;
-//   every dependent of a node with a depth is strictly deeper (all lists relaxed);
+//   every dependent of a node with a depth is strictly deeper (all lists relaxed) unless that depth is already len(nodes)-1, the longest possible chain;
 //   a depth >= 1 is witnessed by a dependency whose depth is at least one less.
 // Together: depth(k) = 1 + max depth of the dependencies of k that have a depth - the longest dependency chain on an acyclic graph.
 //@ pred depthQueue(g *DependencyGraph, queue []*Node) =
 //@      forall i int :: 0 <= i && i < len(queue) ==> queue[i] != nil && (queue[i].Key in g.nodes) && g.nodes[queue[i].Key] == queue[i] && queue[i].Depth >= 0
+// (or the depth of c is already the longest possible chain: larger depths can only come from a cycle and are not propagated, which is what makes the
+// relaxation end on cyclic graphs)
 //@ pred depthRelaxedAt(g *DependencyGraph, c NodeKey, lim int) = forall j int :: 0 <= j && j < lim && j < len(g.nodes[c].Dependents) && (g.nodes[c].Dependents[j] in g.nodes) ==>
-//@      g.nodes[g.nodes[c].Dependents[j]].Depth >= g.nodes[c].Depth + 1
+//@      g.nodes[g.nodes[c].Dependents[j]].Depth >= g.nodes[c].Depth + 1 || g.nodes[c].Depth + 1 >= len(g.nodes)
 //@ pred depthPending(g *DependencyGraph, queue []*Node, where fmap[NodeKey]int, c NodeKey) = 0 <= where[c] && where[c] < len(queue) && queue[where[c]] == g.nodes[c]
 //@ pred depthSettled(g *DependencyGraph, queue []*Node, where fmap[NodeKey]int, cur NodeKey, lim int) = forall c NodeKey :: (c in g.nodes) && g.nodes[c].Depth >= 0 ==>
 //@      depthPending(g, queue, where, c) || depthRelaxedAt(g, c, ite(c == cur, lim, len(g.nodes[c].Dependents)))
